@@ -502,7 +502,6 @@ void vec(vf::Draw &d, vf::Ctx &ctx) {
         if constexpr (has_neg<V>::value) { for (size_t i = 0; i < S; ++i) r[i] = -a[i]; if (!expect(ctx, "sweep: unary minus", -va, r, a, (T *)nullptr)) ++bad; }
         if constexpr (has_abs<V>::value) { for (size_t i = 0; i < S; ++i) r[i] = sc_abs(a[i]); if (!expect(ctx, "sweep: abs", abs(va), r, a, (T *)nullptr)) ++bad; }
         if constexpr (FL && has_sqrt<V>::value) { for (size_t i = 0; i < S; ++i) r[i] = std::sqrt(a[i]); if (!expect(ctx, "sweep: sqrt", sqrt(va), r, a, (T *)nullptr)) ++bad; }
-        { for (size_t i = 0; i < S; ++i) r[i] = a[i] + a[S - 1 - i]; V vb(r, false); /* keep the optimiser honest */ vf::opaque(vb); }
       }
     } else { ctx.label("absent:sweep32"); }
   }
